@@ -1,6 +1,9 @@
 package main
 
 import (
+	"github.com/mmcloughlin/avo/x86"
+	"github.com/mmcloughlin/avo/operand"
+	"sort"
 	"fmt"
 	"go/ast"
 	"go/parser"
@@ -66,6 +69,58 @@ func orderFile(c *Ctx) string {
 	return "From Avo Require Import Base.Prelude Model.Pipeline.\n" +
 		"Definition pass_order : list string := " + cStrs(translatePassOrder(c.Repo)) + ".\n" +
 		"Lemma pass_order_ok : pass_order = modelled_pass_order.\nProof. reflexivity. Qed.\nPrint Assumptions pass_order_ok.\n"
+}
+
+// opcodeSweep: one small program per instruction constructor (built by the real constructor, so with the
+// real terminal/branch/conditional flags): the instruction, a filler, a label, RET.  A branch form
+// takes the label as its target.  This makes the CFG rule "falls through unless it is a return or an
+// unconditional jump" face every opcode, not only the ones the random generator happens to use.
+func opcodeSweep(c *Ctx) []*Prog {
+	ctors := readCtors(c.Repo)
+	d := dumpForms(c.Repo)
+	opcIndexOf := map[string]int{}
+	for k, v := range d.OpcName {
+		opcIndexOf[v] = k
+	}
+	var names []string
+	for n := range ctors {
+		names = append(names, n)
+	}
+	sort.Strings(names)
+	rng := NewRNG(c.Seed + 909)
+	var out []*Prog
+	for _, name := range names {
+		ci := ctors[name]
+		for _, df := range ci.Doc {
+			var ops []operand.Op
+			okf := true
+			for _, tn := range df[1:] {
+				t := strings.ToUpper(tn)
+				if t == "REL8" || t == "REL32" {
+					ops = append(ops, operand.LabelRef("t"))
+					continue
+				}
+				op, ok := hwSample(t, rng, 16)
+				if !ok {
+					okf = false
+					break
+				}
+				ops = append(ops, op)
+			}
+			if !okf {
+				continue
+			}
+			i, err, _ := x86.VerifBuild(opcIndexOf[ci.Opcode], ci.Suffixes, ops)
+			if err != nil || i == nil {
+				continue
+			}
+			p := &Prog{Desc: "opcode sweep " + name, Tags: map[string]bool{"opcode-sweep": true}}
+			p.Nodes = []ir.Node{i, &ir.Instruction{Opcode: "NOP"}, ir.Label("t"), &ir.Instruction{Opcode: "RET", IsTerminal: true}}
+			out = append(out, p)
+			break
+		}
+	}
+	return out
 }
 
 type cfgOutcome struct {
@@ -181,6 +236,9 @@ func c09(c *Ctx) {
 		n = 6000
 	}
 	progs := cfgCorpus()
+	sweep := opcodeSweep(c)
+	progs = append(progs, sweep...)
+	n += len(sweep)
 	for len(progs) < n {
 		mal := rng.Chance(25)
 		p := genProg(rng, ProgOpts{MaxNodes: 4 + rng.Intn(40), Malformed: mal, Phys: true, Synth: true, NVirt: 6, Branches: true})
